@@ -352,7 +352,7 @@ package boltz
 // tagged keys: a typed set bucket stores prepend(fieldType, element); untag drops the tag byte
 //@ spec untag(s Str) Str = (str_sub s 1 (str_len s))
 //@ spec tagOf(s Str) Int = (str_at s 0)
-//@ axiom prepend_untag: (forall ((t Int) (v Str)) (! (and (= (untag (prepend t v)) v) (= (tagOf (prepend t v)) t) (= (str_len (prepend t v)) (+ (str_len v) 1))) :pattern ((prepend t v))))
+//@ axiom prepend_untag: (forall ((t Int) (v Str)) (! (and (= (untag (prepend t v)) v) (=> (and (<= 0 t) (<= t 255)) (= (tagOf (prepend t v)) t)) (= (str_len (prepend t v)) (+ (str_len v) 1))) :pattern ((prepend t v))))
 //@ axiom prepend_order: (forall ((t Int) (a Str) (b Str)) (! (= (str_lt (prepend t a) (prepend t b)) (str_lt a b)) :pattern ((str_lt (prepend t a) (prepend t b)))))
 // element-wise views of a key sequence
 //@ spec untagArr(a (Array Int Str)) (Array Int Str)
